@@ -220,4 +220,20 @@ CLAIMS = {
                 "os.truncate, os.link, file descriptors, subprocesses) are not isolated by design and not in the scope; symlinks "
                 "and concurrent modification are not explored.",
     },
+    "C20": {
+        "category": "other",
+        "text": "Bounded stand-in for the statement (not a proof): the real pipeline RemoteAssertionTraceObserver._check_value -> "
+                "assertion_to_cst -> compile -> exec against the observed value, in a namespace holding pytest, the module alias "
+                "and the module's public names, over a fixed list of ~70 scalar values (huge/negative ints, bools, None, str/bytes "
+                "with quotes, backslashes, control, non-BMP and surrogate characters, floats incl. -0.0, subnormals, max double, "
+                "inf, NaN, complex incl. NaN/inf components, Enum/IntEnum/StrEnum/Flag members incl. composite flags) each alone "
+                "and wrapped in list/tuple/set/frozenset/dict (as key and as value) up to depth 5, plus dicts with non-literal "
+                "keys, objects, types, sized objects, iterators, functions. In addition _make_float_literal is proved over IEEE "
+                "doubles (z3 FP theory): every libcst constructor precondition holds (valid Float token, quoted string) and the "
+                "literal evaluates to a double equal to the value (NaN to NaN).",
+        "technique": "bounded contract check over a fixed value scope (the renderer recurses over arbitrary Python values with "
+                     "dynamic type tests: outside the verifier's subset) + deductive proof of the float literal helper",
+        "note": "no unbounded claim for _value_to_cst/is_assertable; pytest.approx semantics and libcst token validation are "
+                "trusted; names of enum classes are assumed to be public names of the module under test (bound in the test file).",
+    },
 }
